@@ -23,7 +23,9 @@ RULE = (
     "generated labels at every character offset, every sequence of up to 5 "
     "tokens in value position, all pairs of ~75 borderline atoms glued together "
     "as a value, random splices of corpus "
-    "fragments; x 5 parser configurations. distinct = (parser, string); "
+    "fragments; coverage-guided mutation of the corpus (atheris/libFuzzer, "
+    "fixed seed and run count per shard, same oracle); "
+    "x 5 parser configurations. distinct = (parser, string); "
     "non-trivial = string is not empty"
 )
 TOKENS = ["a", "1", "=", "(", ")", "{", "}", ",", ";", "<m>", "<", "'x'", "/*",
@@ -178,6 +180,59 @@ def shard(i, n, tier, seed, rec, hb):
                      sample={"reader": reader, "text": text[:120], "source": src}
                      if rec.c["evaluations"] % 50021 == 0 else None)
             run_one(rec, pvl, reader, text, holder, src)
+    fuzz_stage(i, n, tier, seed, rec, hb)
+
+
+def fuzz_stage(i, n, tier, seed, rec, hb):
+    """Coverage-guided mutation of the corpus (atheris), judged by run_one."""
+    import json
+    import shutil
+    import subprocess
+    import tempfile
+    runs = int(os.environ.get("VERIF_FUZZ_RUNS", 3000 if tier == "quick" else 150000))
+    work = tempfile.mkdtemp(prefix=f"pvlfuzz{i}.", dir="/dev/shm")
+    out = os.path.join(work, "out.json")
+    try:
+        p = subprocess.Popen(
+            [common.PY, "-m", "vlib.fuzz_c06", "--shard", str(i), "--seed", str(seed),
+             "--runs", str(runs), "--out", out, "--work", work],
+            cwd=common.VERIF, stdout=subprocess.DEVNULL, stderr=subprocess.PIPE,
+            text=True)
+        import threading
+        err = []
+        t = threading.Thread(target=lambda: err.append(p.stderr.read()), daemon=True)
+        t.start()
+        while p.poll() is None:
+            hb.beat()
+            try:
+                p.wait(timeout=2)
+            except subprocess.TimeoutExpired:
+                pass
+        t.join(timeout=10)
+        stderr = err[0] if err else ""
+        try:
+            data = json.load(open(out))
+        except (OSError, ValueError):
+            rec.inconc(f"fuzz stage of shard {i} left no record (rc={p.returncode}): "
+                       + stderr[-300:])
+            return
+        if "not_run" in data:
+            rec.count("fuzz_stage_not_run")
+            if i == 0:
+                rec.notes.append("coverage-guided stage not run (atheris could not "
+                                 "be installed offline): " + str(data["not_run"])[:200])
+            return
+        rec.merge_json(data["rec"])
+        for line in stderr.splitlines():
+            if line.startswith("stat::new_units_added:"):
+                rec.count("fuzz_new_coverage_units", int(line.split()[-1]))
+        if p.returncode != 0:
+            # libFuzzer stopped on its own (timeout / crash artefact): the
+            # unit is in the work directory - keep it as an inconclusive note
+            rec.inconc(f"fuzz process of shard {i} ended with rc={p.returncode}: "
+                       + stderr[-300:])
+    finally:
+        shutil.rmtree(work, ignore_errors=True)
 
 
 def finish_kwargs(rec, tier):
